@@ -230,7 +230,17 @@ def one_workbook(ctx, spec, meta, order, config='mem', rng=None):
         o = wb.outcome(comp.evaluate, poison)
         ctx.count('failed_builds' if o[0] == 'x' else 'poison_did_not_fail')
     for k, a in enumerate(order):
-        base[a] = wb.outcome(comp.evaluate, a)
+        spelled = a
+        if poison and ':' not in a:
+            # (after a build that failed: the same cell asked for in another spelling)
+            sheet, coord_ = a.rsplit('!', 1)
+            col, row = wb.split_coord(coord_)
+            if k % 3 == 0:
+                spelled = f'{wb.quote_sheet(sheet)}!${wb.col_letter(col)}${row}'
+            elif k % 3 == 1 and sheet == spec['sheets'][0][0] and config == 'mem':
+                spelled = coord_.lower()
+            ctx.count('evaluate_by_another_spelling_after_a_failed_build', spelled != a)
+        base[a] = wb.outcome(comp.evaluate, spelled)
         if spec.get('export_at') == k:
             # exporting the graph must not disturb the live graph
             o = wb.outcome(comp.export_to_gexf, f'{ctx.tmpdir}/g.gexf')
